@@ -1544,9 +1544,13 @@ impl World {
         // 5. advance (messages queued since ready() — e.g. by apply_conf_change — were already
         // seen by the generation monitors; only those created inside advance_append are new)
         let queued_before_advance = self.live(i).unwrap().rn.raft.msgs.len();
-        let Some(mut light) = self.call(i, CallKind::Advance, ctx, |rn| rn.advance_append(rd)) else {
+        let simple = self.cfg(i).simple_advance && !self.cfg(i).apply_lag;
+        let Some(mut light) = self.call(i, CallKind::Advance, ctx, |rn| if simple { rn.advance(rd) } else { rn.advance_append(rd) }) else {
             return false;
         };
+        if simple {
+            ctx.stat(Stat::SimpleAdvances);
+        }
         // 6. light ready
         if let Some(c) = light.commit_index() {
             self.write(i, 0, WriteOp::Commit(c));
@@ -1561,7 +1565,12 @@ impl World {
         if !self.hand_out(i, ce, true, ctx) {
             return false;
         }
-        if !self.cfg(i).apply_lag {
+        if simple {
+            // everything handed out so far is applied: advance_apply() says so
+            if self.call(i, CallKind::ApplyTo, ctx, |rn| rn.advance_apply()).is_none() {
+                return false;
+            }
+        } else if !self.cfg(i).apply_lag {
             let applied = self.live(i).unwrap().rn.store().app.applied;
             if self
                 .call(i, CallKind::ApplyTo, ctx, |rn| rn.advance_apply_to(applied))
